@@ -226,3 +226,191 @@ Theorem C02_examples :
    fresh_of (mk_graph f2b_nodes) xsem false f2b_ops 0 2 = Some (Some (XS (AFin 13)))).
 Proof. split; [exact f2_wf | split; [exact f2b_wf | split; [exact f2b_fmix | split; [exact hypotheses_met | exact nonfinite_refuted_aggregate]]]]. Qed.
 Print Assumptions C02_examples.
+
+(** * Composition with C15 and C07 (Compose/*.v; docs/Compose.md; notations as in the last section of Props/C01.v).
+
+    [WF g] is discharged by C15 for every graph built by the modelled DAG constructor ([graph_of_build defs r v0] with
+    [DagModel.build (dag_of_defs defs) = Ok r]); [F_mix g sm] is discharged by C07's op-kind semantics for every graph of the
+    individual-axis type system, with any number of parents per node; and for graphs accepted by the [well_typed] checker
+    the closure condition [axis_read_ok] on the reads between a per-individual proposal and its decision follows from the
+    contract AS DOCUMENTED: "only variables carrying the individual axis". *)
+From Leaspy Require Dag.DagModel Locality.AxisTypes.
+From Leaspy Require Import Compose.DagState Compose.DagStateProofs Compose.RevertBuilt
+                           Compose.AxisState Compose.AxisStateProofs Compose.AxisStateExamples.
+
+(** [C02_full_revert] on every graph the constructor builds: no hypothesis on the graph. *)
+Theorem C02_full_revert_built :
+  forall (V : Type) (defs : list (vdef V)) (r : DagModel.dag) (v0 : V) (fx chk : bool),
+    DagModel.build (dag_of_defs defs) = DagModel.Ok r -> fx = true \/ chk = true ->
+  forall (st : state V) (i : nat) (o : option V) (reads : list nat),
+    Good (graph_of_build defs r v0) st -> mode st <> None -> i < gn (graph_of_build defs r v0) ->
+    settable (graph_of_build defs r v0) i = true ->
+    let st1 := fst (set_state (graph_of_build defs r v0) fx st i o) in
+    let st2 := gets (graph_of_build defs r v0) st1 reads in
+    let st3 := fst (revert_state st2) in
+    snd (revert_state st2) = Done /\
+    (forall j w, values st j = Some w -> values st3 j = Some w) /\
+    (forall j, In j (i :: desc (graph_of_build defs r v0) i) -> values st3 j = values st j) /\
+    (forall j, linked (graph_of_build defs r v0) j = false -> values st3 j = values st j) /\
+    fork st3 = None /\ mode st3 = mode st /\ Good (graph_of_build defs r v0) st3 /\
+    (forall j, snd (get (graph_of_build defs r v0) (values st3) j) = snd (get (graph_of_build defs r v0) (values st) j)).
+Proof. exact full_revert_built. Qed.
+Print Assumptions C02_full_revert_built.
+
+(** [C02_pop_step] likewise: the whole population step of the sampler on any built graph. *)
+Theorem C02_pop_step_built :
+  forall (V M IX : Type) (defs : list (vdef V)) (r : DagModel.dag) (v0 : V) (sm : sem V M IX) (fx chk : bool),
+    DagModel.build (dag_of_defs defs) = DagModel.Ok r -> fx = true \/ chk = true ->
+  forall decide x reads blks (st st' : state V), sim (graph_of_build defs r v0) st st' -> mode st <> None ->
+    (forall a, In a (snd (pop_step (graph_of_build defs r v0) sm fx decide x reads st blks)) -> a <> None) ->
+    sim (graph_of_build defs r v0) (fst (pop_step (graph_of_build defs r v0) sm fx decide x reads st blks))
+        (pop_accepted (graph_of_build defs r v0) sm fx x st' blks (snd (pop_step (graph_of_build defs r v0) sm fx decide x reads st blks))).
+Proof. exact pop_step_built. Qed.
+Print Assumptions C02_pop_step_built.
+
+(** [F_mix] from the op-kind semantics, node function by node function: for ANY op-kind, any number of parents, any
+    selection pattern — the row-local kinds because row j of the result depends on row j of the per-individual arguments
+    only, the others because they deliver a population value, which the selection refuses. *)
+Theorem C02_opkind_functions_commute_with_selection :
+  forall (A : Type) (add : A -> A -> A) (IX : Type) (put : option IX -> aval A -> bool -> aval A -> option (aval A))
+         (k : AxisTypes.opkind) (f : AxisTypes.nodefun A) (n : nat) m sel ps olds curs news x,
+    mixed_args (axis_sem A IX put) m sel ps olds curs news ->
+    axis_mix A m (axis_fun A add k f n olds) (axis_fun A add k f n curs) = Some x ->
+    axis_fun A add k f n news = x.
+Proof. exact axis_fun_mix. Qed.
+Print Assumptions C02_opkind_functions_commute_with_selection.
+
+(** Hence [F_mix] for the State graph of every graph of the type system (no typing needed for this part). *)
+Theorem C02_F_mix_opkinds :
+  forall (A : Type) (add : A -> A -> A) (IX : Type) (put : option IX -> aval A -> bool -> aval A -> option (aval A))
+         (G : AxisTypes.graph) (fs : nat -> AxisTypes.nodefun A) (n : nat) (r : DagModel.dag) (v0 : aval A),
+    F_mix (graph_of_build (defs_of_axis A add G fs n) r v0) (axis_sem A IX put).
+Proof. exact F_mix_axis. Qed.
+Print Assumptions C02_F_mix_opkinds.
+
+(** What the checker adds: in a well-typed graph a per-individual node has no ancestor below a per-individual variable
+    that lacks the individual axis (DESIGN.md section 4 C01: AxisClosed) — so reading a per-individual term never caches
+    an aggregate of the forked sub-graph as a side effect. *)
+Theorem C02_axis_closed_well_typed :
+  forall (A : Type) (add : A -> A -> A) (G : AxisTypes.graph) (fs : nat -> AxisTypes.nodefun A) (n : nat)
+         (r : DagModel.dag) (v0 : aval A),
+    AxisTypes.well_typed G = true ->
+    DagModel.build (dag_of_defs (defs_of_axis A add G fs n)) = DagModel.Ok r ->
+    forall i q, i < length (AxisTypes.g_nodes G) -> q < length (AxisTypes.g_nodes G) ->
+      ind_axis (graph_of_build (defs_of_axis A add G fs n) r v0) i = true ->
+      ind_axis (graph_of_build (defs_of_axis A add G fs n) r v0) q = true ->
+      axis_read_ok (graph_of_build (defs_of_axis A add G fs n) r v0) i q.
+Proof. exact well_typed_axis_closed. Qed.
+Print Assumptions C02_axis_closed_well_typed.
+
+(** [C02_partial_revert] with [WF], [F_mix] and [axis_read_ok] discharged: well-typed graph, accepted by the constructor;
+    the reads between the proposal and the decision are reads of variables carrying the individual axis. *)
+Theorem C02_partial_revert_well_typed :
+  forall (A : Type) (add : A -> A -> A) (IX : Type) (put : option IX -> aval A -> bool -> aval A -> option (aval A))
+         (G : AxisTypes.graph) (fs : nat -> AxisTypes.nodefun A) (n : nat) (r : DagModel.dag) (v0 : aval A),
+    DagModel.build (dag_of_defs (defs_of_axis A add G fs n)) = DagModel.Ok r ->
+    AxisTypes.well_typed G = true ->
+  forall (fx chk : bool), fx = true \/ chk = true ->
+  forall (st : state (aval A)) (i : nat) (o : option (aval A)) (reads : list nat) (m : list bool),
+    Good (graph_of_build (defs_of_axis A add G fs n) r v0) st -> mode st <> None ->
+    i < gn (graph_of_build (defs_of_axis A add G fs n) r v0) ->
+    settable (graph_of_build (defs_of_axis A add G fs n) r v0) i = true ->
+    ind_axis (graph_of_build (defs_of_axis A add G fs n) r v0) i = true ->
+    (forall q, In q reads -> q < gn (graph_of_build (defs_of_axis A add G fs n) r v0) /\
+                             ind_axis (graph_of_build (defs_of_axis A add G fs n) r v0) q = true) ->
+    let st1 := fst (set_state (graph_of_build (defs_of_axis A add G fs n) r v0) fx st i o) in
+    let st2 := gets (graph_of_build (defs_of_axis A add G fs n) r v0) st1 reads in
+    shapes_ok (graph_of_build (defs_of_axis A add G fs n) r v0) (axis_sem A IX put) m i (values st) (values st2) ->
+    let st3 := fst (revert_mask_state (axis_sem A IX put) st2 m) in
+    snd (revert_mask_state (axis_sem A IX put) st2 m) = Done /\
+    (forall j, In j (i :: desc (graph_of_build (defs_of_axis A add G fs n) r v0) i) ->
+       values st3 j = match values st j, values st2 j with Some old, Some cur => mix (axis_sem A IX put) m old cur | _, _ => None end) /\
+    (forall j, ~ In j (i :: desc (graph_of_build (defs_of_axis A add G fs n) r v0) i) -> values st3 j = values st2 j) /\
+    (forall j w, ~ In j (i :: desc (graph_of_build (defs_of_axis A add G fs n) r v0) i) -> values st j = Some w -> values st3 j = Some w) /\
+    (forall j, In j (desc (graph_of_build (defs_of_axis A add G fs n) r v0) i) ->
+       ind_axis (graph_of_build (defs_of_axis A add G fs n) r v0) j = false -> values st3 j = None) /\
+    Good (graph_of_build (defs_of_axis A add G fs n) r v0) st3 /\ fork st3 = None /\ mode st3 = mode st.
+Proof. exact partial_revert_axis. Qed.
+Print Assumptions C02_partial_revert_well_typed.
+
+Theorem C02_partial_revert_as_if_well_typed :
+  forall (A : Type) (add : A -> A -> A) (IX : Type) (put : option IX -> aval A -> bool -> aval A -> option (aval A))
+         (G : AxisTypes.graph) (fs : nat -> AxisTypes.nodefun A) (n : nat) (r : DagModel.dag) (v0 : aval A),
+    DagModel.build (dag_of_defs (defs_of_axis A add G fs n)) = DagModel.Ok r ->
+    AxisTypes.well_typed G = true ->
+  forall (fx chk : bool), fx = true \/ chk = true ->
+  forall (st : state (aval A)) (i : nat) (o : option (aval A)) (reads : list nat) (m : list bool),
+    Good (graph_of_build (defs_of_axis A add G fs n) r v0) st -> mode st <> None ->
+    i < gn (graph_of_build (defs_of_axis A add G fs n) r v0) ->
+    settable (graph_of_build (defs_of_axis A add G fs n) r v0) i = true ->
+    ind_axis (graph_of_build (defs_of_axis A add G fs n) r v0) i = true ->
+    (forall q, In q reads -> q < gn (graph_of_build (defs_of_axis A add G fs n) r v0) /\
+                             ind_axis (graph_of_build (defs_of_axis A add G fs n) r v0) q = true) ->
+    let st2 := gets (graph_of_build (defs_of_axis A add G fs n) r v0)
+                 (fst (set_state (graph_of_build (defs_of_axis A add G fs n) r v0) fx st i o)) reads in
+    shapes_ok (graph_of_build (defs_of_axis A add G fs n) r v0) (axis_sem A IX put) m i (values st) (values st2) ->
+    let st3 := fst (revert_mask_state (axis_sem A IX put) st2 m) in
+    sim (graph_of_build (defs_of_axis A add G fs n) r v0) st3
+        (forget_fork (fst (set_state (graph_of_build (defs_of_axis A add G fs n) r v0) fx st i (values st3 i)))).
+Proof. exact partial_revert_as_if_axis. Qed.
+Print Assumptions C02_partial_revert_as_if_well_typed.
+
+(** [C02_ind_step] likewise: the individual sampler step on a well-typed graph. *)
+Theorem C02_ind_step_well_typed :
+  forall (A : Type) (add : A -> A -> A) (IX : Type) (put : option IX -> aval A -> bool -> aval A -> option (aval A))
+         (G : AxisTypes.graph) (fs : nat -> AxisTypes.nodefun A) (n : nat) (r : DagModel.dag) (v0 : aval A),
+    DagModel.build (dag_of_defs (defs_of_axis A add G fs n)) = DagModel.Ok r ->
+    AxisTypes.well_typed G = true ->
+  forall (fx chk : bool), fx = true \/ chk = true ->
+  forall decide x reads (st st' : state (aval A)) d (m : list bool),
+    Good (graph_of_build (defs_of_axis A add G fs n) r v0) st -> mode st <> None ->
+    x < gn (graph_of_build (defs_of_axis A add G fs n) r v0) ->
+    ind_axis (graph_of_build (defs_of_axis A add G fs n) r v0) x = true ->
+    (forall q, In q reads -> q < gn (graph_of_build (defs_of_axis A add G fs n) r v0) /\
+                             ind_axis (graph_of_build (defs_of_axis A add G fs n) r v0) q = true) ->
+    ind_step (graph_of_build (defs_of_axis A add G fs n) r v0) (axis_sem A IX put) fx decide x reads st d = (st', Some m) ->
+    exists old new,
+      snd (get (graph_of_build (defs_of_axis A add G fs n) r v0) (values st) x) = Ok old /\
+      put_val (axis_sem A IX put) None d true old = Some new /\
+      values st' x = mix (axis_sem A IX put) m old new /\
+      (forall j, In j (desc (graph_of_build (defs_of_axis A add G fs n) r v0) x) ->
+         ind_axis (graph_of_build (defs_of_axis A add G fs n) r v0) j = false -> values st' j = None) /\
+      (forall j w, ~ In j (x :: desc (graph_of_build (defs_of_axis A add G fs n) r v0) x) -> values st j = Some w -> values st' j = Some w) /\
+      Good (graph_of_build (defs_of_axis A add G fs n) r v0) st' /\ fork st' = None /\ mode st' = mode st /\
+      sim (graph_of_build (defs_of_axis A add G fs n) r v0) st'
+          (forget_fork (fst (set_state (graph_of_build (defs_of_axis A add G fs n) r v0) fx st x (values st' x)))).
+Proof. exact ind_step_axis. Qed.
+Print Assumptions C02_ind_step_well_typed.
+
+(** [C02_later_history] ("every following history") with [WF] and [F_mix] discharged. *)
+Theorem C02_later_history_opkinds :
+  forall (A : Type) (add : A -> A -> A) (IX : Type) (put : option IX -> aval A -> bool -> aval A -> option (aval A))
+         (G : AxisTypes.graph) (fs : nat -> AxisTypes.nodefun A) (n : nat) (r : DagModel.dag) (v0 : aval A),
+    DagModel.build (dag_of_defs (defs_of_axis A add G fs n)) = DagModel.Ok r ->
+  forall (fx chk : bool), fx = true \/ chk = true ->
+  forall (ops : list (op (aval A) (list bool) IX)) (s1 s2 : store (aval A)),
+    sim_store (graph_of_build (defs_of_axis A add G fs n) r v0) s1 s2 ->
+    Disciplined (graph_of_build (defs_of_axis A add G fs n) r v0) (axis_sem A IX put) fx chk s1 ops ->
+    Disciplined (graph_of_build (defs_of_axis A add G fs n) r v0) (axis_sem A IX put) fx chk s2 ops ->
+    sim_store (graph_of_build (defs_of_axis A add G fs n) r v0)
+      (fst (run (graph_of_build (defs_of_axis A add G fs n) r v0) (axis_sem A IX put) fx s1 ops))
+      (fst (run (graph_of_build (defs_of_axis A add G fs n) r v0) (axis_sem A IX put) fx s2 ops)) /\
+    outs_agree (graph_of_build (defs_of_axis A add G fs n) r v0) ops
+      (snd (run (graph_of_build (defs_of_axis A add G fs n) r v0) (axis_sem A IX put) fx s1 ops))
+      (snd (run (graph_of_build (defs_of_axis A add G fs n) r v0) (axis_sem A IX put) fx s2 ops)).
+Proof. exact later_history_axis. Qed.
+Print Assumptions C02_later_history_opkinds.
+
+(** Non-vacuity: a well-typed graph (two-parent Pointwise and ReduceOther nodes, an aggregate; name order not topological)
+    accepted by the constructor; a history with a per-individual proposal, a read of a per-individual term and the rejection
+    of individuals 0 and 2 meets the precondition; the hypotheses of [C02_partial_revert_well_typed] hold for the sampled
+    variable and the term read — and the closure condition FAILS for the aggregate, as it must. *)
+Theorem C02_compose_examples :
+  (AxisTypes.well_typed toy2 = true /\ DagModel.build (dag_of_defs toy2_defs) = DagModel.Ok toy2_r /\
+   DagModel.order toy2_r = AxisTypes.g_order toy2) /\
+  (settable toy2_g (p2 4) = true /\ ind_axis toy2_g (p2 4) = true /\ ind_axis toy2_g (p2 1) = true /\
+   axis_read_ok toy2_g (p2 4) (p2 1) /\ ~ axis_read_ok toy2_g (p2 4) (p2 0)) /\
+  (exists st, nth_error (fst (StateNow.run_now toy2_g toy2_sem (init_store toy2_g) toy2_ops)) 0 = Some st /\
+              scratch toy2_g (values st) (p2 1) = Some (Some (AxisTypes.VInd [[1]; [4]; [58]]%Z))).
+Proof. split; [exact toy2_accepted | split; [exact toy2_contract | exact toy2_fresh]]. Qed.
+Print Assumptions C02_compose_examples.
